@@ -283,6 +283,8 @@ class WebSocket:
                     self.handshake_response = handshake(
                         self.sock, url, *addrs, **options
                     )
+            if self.handshake_response.status in SUPPORTED_REDIRECT_STATUSES:
+                raise WebSocketException("Too many redirects")
             self.connected = True
         except:
             if self.sock:
